@@ -2,6 +2,7 @@ use crate::util::Tok;
 
 mod c03;
 mod c04;
+mod c05;
 mod c06;
 mod c11;
 mod c11_live;
@@ -13,6 +14,9 @@ pub fn run(engine: &str, toks: Vec<Tok>) -> Vec<Tok> {
         "c03_connect" => c03::connect(toks),
         "c03_v4_sweep" => c03::v4_sweep(toks),
         "c04_eval" => c04::eval(toks),
+        "c05_select" => c05::select(toks),
+        "c05_history" => c05::history(toks),
+        "c05_codec" => c05::codec(toks),
         "c06_decode" => c06::decode(toks),
         "c06_encode" => c06::encode(toks),
         "c11_checksum" => c11::checksum(toks),
